@@ -43,6 +43,7 @@ def check(ck):
     r11_4(ck)
     r11_5_6(ck)
     r11_7(ck)
+    r11_8(ck)
 
 
 def r11_1(ck):
@@ -473,3 +474,33 @@ def r11_7(ck):
     """Daughters stay independent under later updates (shared with C08)."""
     from . import c08
     c08.r08_8(ck, rule='R11.7')
+
+
+def r11_8(ck):
+    ck.rule('R11.8', 'a divider that declares a topology is given the '
+            'values at the paths it names, resolved from the divided node: '
+            'in Store.topology_state every get_path / outer_path on a '
+            'topology path is called on self; divide_value hands the '
+            'divider the result as `state` and the config as `config`')
+    f = ck.fn('Store.topology_state', 'core.store')
+    n = 0
+    for c in A.calls_in(f.node, ('get_path', 'outer_path')):
+        a0 = A.arg_of(c, 0)
+        if a0 is None or 'path' not in A.names_in(a0):
+            continue
+        n += 1
+        ck.require(A.is_name(A.call_receiver(c), 'self'), 'R11.8', f, c,
+                   'the path is resolved from the divided node (self)',
+                   'a divider topology path is resolved from `%s`, which '
+                   'earlier entries may have re-bound: the divider is given '
+                   'values from the wrong place' % A.unparse(
+                       A.call_receiver(c)), c)
+    ck.floor('R11.8', n, 3, 'path resolutions in topology_state')
+    dv = ck.fn('Store.divide_value', 'core.store')
+    txt = A.unparse(dv.node)
+    ok = "'state': self.topology_state(topology)" in txt and \
+        "'config': config" in txt and 'divider(self.get_value(), **args)' \
+        in txt
+    ck.require(ok, 'R11.8', dv, dv.node.name,
+               'divide_value passes state=topology_state(topology) and '
+               'config=config to the divider', None)
